@@ -278,9 +278,27 @@ def audit(prop_id, required):
                 for ln in body.splitlines():
                     if FORBIDDEN.search(ln):
                         res['broken'].append('forbidden construct in %s: %s' % (f, ln.strip()[:120]))
-    names = re.findall(r'^theorem\s+([A-Za-z0-9_\.\']+)', strip_comments(src), flags=re.M)
-    ns = re.search(r'^namespace\s+(\S+)', src, flags=re.M)
-    prefix = (ns.group(1) + '.') if ns else ''
+    # every `theorem` of the file with its full name (namespace / section / end tracked)
+    names = []          # short names
+    full_names = []
+    stack = []
+    for ln in strip_comments(src).splitlines():
+        m = re.match(r'^\s*namespace\s+(\S+)', ln)
+        if m:
+            stack.append(('ns', m.group(1)))
+            continue
+        m = re.match(r'^\s*section\b\s*(\S*)', ln)
+        if m:
+            stack.append(('sec', m.group(1)))
+            continue
+        m = re.match(r'^\s*end\b\s*(\S*)', ln)
+        if m and stack:
+            stack.pop()
+            continue
+        m = re.match(r'^(?:private\s+|protected\s+)?theorem\s+([A-Za-z0-9_\.\']+)', ln)
+        if m:
+            names.append(m.group(1))
+            full_names.append('.'.join([n for k, n in stack if k == 'ns'] + [m.group(1)]))
     for r_ in required:
         if r_ not in names:
             res['broken'].append('required theorem %s is missing from Props/%s.lean' % (r_, prop_id))
@@ -290,8 +308,8 @@ def audit(prop_id, required):
         afile = os.path.join(adir, 'Audit_%s.lean' % prop_id)
         with open(afile, 'w') as fh:
             fh.write('import ChiProofs.Props.%s\n' % prop_id)
-            for nm in names:
-                fh.write('#print axioms %s%s\n' % (prefix, nm))
+            for nm in full_names:
+                fh.write('#print axioms %s\n' % nm)
         r = subprocess.run(['lake', 'env', 'lean', afile], cwd=LEAN_DIR, capture_output=True,
                            text=True)
         text = r.stdout + r.stderr
@@ -302,8 +320,7 @@ def audit(prop_id, required):
                 r"'([^']+)' (does not depend on any axioms|depends on axioms: \[([^\]]*)\])", text):
             axs = [a.strip() for a in (m.group(3) or '').replace('\n', ' ').split(',') if a.strip()]
             found[m.group(1)] = axs
-        for nm in names:
-            full = prefix + nm
+        for full in full_names:
             if full not in found:
                 res['broken'].append('theorem %s: no axiom report' % full)
                 res['theorems'].append({'name': full, 'axioms': None, 'ok': False})
